@@ -90,19 +90,22 @@ def run_program(R, ctx, levelchars, places, offset):
         r.nested_render_text("included", 0, heading_offset=offset)
         return
     for i, (lc, p) in enumerate(zip(levelchars, places)):
-        if p in NESTED_NODE or p == "nested-titles":
+        if p in NESTED_NODE or p in ("nested-titles", "nested-titles+quote"):
             cont = NESTED_NODE.get(p, "container")
             cont = getattr(nodes, cont)()
             cont["ids"] = ["cont%d" % i]
             r.current_node.append(cont)
             inner = CR.heading(tag_of(lc), 0, "h%d" % i) + CR.paragraph(2, "np%d" % i)
+            if p == "nested-titles+quote":
+                # sections are allowed directly under the directive's node only: a heading inside a quote inside it is still a rubric
+                inner = CR.blockquote(0, CR.heading(tag_of(lc), 0, "h%d" % i), 1) + CR.paragraph(2, "np%d" % i)
             r.md.parse = lambda text, env, inner=inner: inner
             import myst_parser.mocking as real_mocking
 
             mk = mocking if mocking is not None else real_mocking
             sm = mk.MockStateMachine(r, 10 * i)
             st = mk.MockState(r, sm, 10 * i)
-            st.nested_parse(StringList(["x"], "src.md"), 1, cont, match_titles=(p == "nested-titles"))
+            st.nested_parse(StringList(["x"], "src.md"), 1, cont, match_titles=(p in ("nested-titles", "nested-titles+quote")))
         else:
             r._render_tokens(item_tokens(i, lc, p))
 
@@ -149,7 +152,7 @@ def check_structure(ctx, levels, places, offset):
             stack.append((lvl, name))
             cur = name
             order.append(name)
-        elif p in ("quote", "item") or p in NESTED_NODE:
+        elif p in ("quote", "item", "nested-titles+quote") or p in NESTED_NODE:
             exp_rubric[name] = (L + offset, cur)
         else:  # nested-titles: judged only through the surrounding structure
             pass
@@ -238,6 +241,8 @@ def families(tier, seed):
     for k in ([2, 3] if q else [3, 4]):
         F.append(Family("mixed/K%d" % k, make_seq, "all sequences of %d headings (levels 1-4 for K3 in the quick tier), each at top level, in a block quote, in a list item or in a nested parse (match_titles on/off)" % k,
                         args=dict(k=k, places=PLACES, levels="1234" if (q and k >= 3) else "123456"), nontrivial="structure", max_forks=200000, required=(k <= 3)))
+    F.append(Family("titles-quote/K3", make_seq, "3 headings (levels 1-3), each at top level, directly in a match_titles nested parse, or inside a block quote inside such a nested parse (sections only directly under the directive's node)",
+                    args=dict(k=3, places=["top", "nested-titles", "nested-titles+quote"], levels="123"), nontrivial="structure", max_forks=200000))
     for k in ([3] if q else [3, 4]):
         F.append(Family("bodies/K%d" % k, make_seq, "%d headings (levels 1-4 in the quick tier), each at top level or in the body of a directive whose node is a topic / sidebar / note / figure (nested parse without match_titles)" % k,
                         args=dict(k=k, places=["top", "nested-topic", "nested-sidebar", "nested-note"] + ([] if q else ["nested-figure"]), levels="1234" if q else "123456"), nontrivial="structure", max_forks=200000, required=(k <= 3)))
